@@ -166,7 +166,19 @@ static Ans ask(const TimeZone& tz, const Query& q) {
     a.s = sp.c_str();
     if (!a.err) {
       fillFields(a, z);
-      if (z.year() >= 1932 && z.year() <= 2067) {   // date -> epoch conversions outside this range are not exercised
+      // date -> epoch conversions whose result is not representable as acetime_t are not exercised (DESIGN
+      // §10.2): decide that in 64-bit arithmetic from the fields, the offset included (a torn manual record
+      // can carry an offset of several days)
+      int64_t e64 = epochOfYearStart(z.year());
+      {
+        static const int cum[12] = {0, 31, 59, 90, 120, 151, 181, 212, 243, 273, 304, 334};
+        int yy = z.year();
+        bool leap = (yy % 4 == 0 && yy % 100 != 0) || yy % 400 == 0;
+        int mo = z.month() >= 1 && z.month() <= 12 ? z.month() : 1;
+        e64 += (int64_t)(cum[mo - 1] + ((leap && mo > 2) ? 1 : 0) + (z.day() - 1)) * 86400
+            + z.hour() * 3600 + z.minute() * 60 + z.second() - (int64_t)z.timeOffset().toMinutes() * 60;
+      }
+      if (z.year() >= 1932 && z.year() <= 2067 && e64 > -2147483647LL + 2 * 86400 && e64 < 2147483647LL - 2 * 86400) {
         a.v[7] = z.toEpochSeconds();
         a.n = 8;
         ZonedDateTime u = z.convertToTimeZone(TimeZone::forUtc());
